@@ -545,6 +545,17 @@ def gen_loop(seed: int, tier: str = "quick") -> Dict[str, Any]:
         j = (i + 1) % nmem
         conns.append({"src": i, "se": 0, "dst": j, "de": 0, "pairs": [["e_out", "t_in"]],
                       "shift": 0, "weak": (j == 0) or (cross and rng.random() < 0.5)})
+    settled = (not cross) and L is not None and rng.random() < 0.15
+    if settled:
+        # member 0 announces "settled" once per time step (in the step after its last loop output)
+        # on a second entity; the signal starts the next time step of member 1 over a time-shifted
+        # connection inside the group
+        sims[0]["n_ent"] = 2
+        sims[1]["n_ent"] = 2
+        sims[0]["beh"]["final_e1"] = True
+        sims[0]["beh"]["p_self"] = rng.choice([0.0, 0.0, 1.0])
+        conns.append({"src": 0, "se": 1, "dst": 1, "de": 1, "pairs": [["e_out", "t_in"]],
+                      "shift": rng.choice([1, 1, 2]), "weak": False})
     # hybrids on the loop step at time 0 by themselves; make their persistent output harmless
     # extras
     for x in range(rng.choice([0, 1, 1, 2])):
@@ -583,6 +594,9 @@ def gen_loop(seed: int, tier: str = "quick") -> Dict[str, Any]:
                                   "cross_subgroups": cross}}
     if rng.random() < 0.3:
         sc["until"] = rng.choice([6, 7, 8])      # more time steps than max_loop_iterations
+    if settled:
+        sc["loop"]["settled_signal"] = True
+        sc["until"] = max(sc["until"], rng.choice([3, 4, 6]))
     repair_cycles(sc, rng)
     return sc
 
